@@ -692,6 +692,18 @@ def problems(draw, profile=None):
                 at = {"half": {"a": [draw(st.integers(-2, 2)) for _ in range(n)], "b": draw(dy(-3, 3))}}
             val = draw(st.sampled_from(["nan", "inf", "-inf", 1e300, -1e300, 1e-300, 1e30]))
             faults.append({"fn": fn, "comp": comp, "at": at, "value": val})
+    if nl and kind != "none" and pct(P["faults"] // 3):
+        # complementary regions: the objective is undefined on one side of a hyperplane and a constraint
+        # component on the other side, so that every evaluation carries exactly one undefined value
+        a = [draw(st.integers(-2, 2)) for _ in range(n)]
+        if not any(a):
+            a[0] = 1
+        bq = draw(dy(-3, 3))
+        i_nl = draw(st.integers(0, len(nl) - 1))
+        val = draw(st.sampled_from(["nan", "nan", "inf", "-inf"]))
+        faults.append({"fn": "obj", "comp": 0, "at": {"half": {"a": a, "b": bq}}, "value": "nan"})
+        faults.append({"fn": "nl%d" % i_nl, "comp": draw(st.integers(0, len(nl[i_nl]["comps"]) - 1)),
+                       "at": {"half": {"a": [-v for v in a], "b": -bq}}, "value": val})
     spec = {
         "n": n, "x0": x0, "lb": lb, "ub": ub,
         "bounds_form": draw(wsample([("Bounds", 3), ("array", 2)])) if any(p != "free" for p in pats) or pct(50) else "none",
@@ -721,3 +733,29 @@ def problems_mix(weighted_profiles):
     for prof, w in weighted_profiles:
         pool.extend([prof] * w)
     return st.integers(0, len(pool) - 1).flatmap(lambda i: problems(pool[i]))
+
+
+@st.composite
+def nan_split_problems(draw, profile=None):
+    """Problems whose objective is undefined (NaN) on one side of a hyperplane through the neighbourhood
+    of x0 and whose single, generously limited nonlinear constraint is undefined on the other side:
+    every evaluation carries exactly one undefined value, and the points with an undefined objective
+    are feasible."""
+    P = dict(profile or {})
+    P.update(max_lin=0, min_nl=1, max_nl=1, limit_pats=[("le", 1)], infeasible_prob=0, faults=0,
+             nl_forms=[("NC", 1)], obj_kinds=[("quad", 3), ("lin", 1), ("rosen", 1)])
+    sp = dec(draw(problems(P)))
+    n = sp["n"]
+    a = [draw(st.integers(-2, 2)) for _ in range(n)]
+    if not any(a):
+        a[0] = 1
+    x0 = np.array([v if math.isfinite(v) else 0.0 for v in sp["x0"]], float)
+    bq = float(np.array(a, float) @ x0) + draw(st.sampled_from([-0.5, -0.25, 0.25, 0.5]))
+    sp["nl"][0]["ub"] = [u + 4.0 for u in sp["nl"][0]["ub"]]
+    comp = draw(st.integers(0, len(sp["nl"][0]["comps"]) - 1))
+    sp["faults"] = [
+        {"fn": "obj", "comp": 0, "at": {"half": {"a": a, "b": bq}}, "value": "nan"},
+        {"fn": "nl0", "comp": comp, "at": {"half": {"a": [-v for v in a], "b": -bq}},
+         "value": draw(st.sampled_from(["nan", "nan", "inf"]))},
+    ]
+    return enc(sp)
